@@ -470,6 +470,19 @@ func genTable(cfg Config, emit func(string, bool, []string)) {
 					}
 				case x < 98:
 					g.add("inited w %s", tn)
+				case x < 100 && withIters && len(openIters) < 3 && strings.Contains(tabs, tn):
+					// an iterator created in the middle of a transaction, after some of its writes,
+					// and asked for changes through that very transaction
+					if r.IntN(2) == 0 {
+						g.add("del %s %s", tn, hx([]byte(g.id())))
+					}
+					g.add("changes %s", tn)
+					if r.IntN(2) == 0 {
+						g.add("next %d w %d", g.niter, []int{-1, -1, 0, 1}[r.IntN(4)])
+					}
+					openIters = append(openIters, g.niter)
+					g.niter++
+					mustCommit = true
 				default:
 					if len(openIters) > 0 {
 						g.add("next %d w %d", openIters[r.IntN(len(openIters))], []int{-1, -1, 0, 1, 2}[r.IntN(5)])
